@@ -193,6 +193,8 @@ func (w *world) synthesizeExact() *synth {
 			take(ev.pid, "release")
 		case "iret":
 			s.emit("(iret)")
+		case "cancel":
+			s.emit("(cancel)")
 		case "ret":
 			s.emit("(ret)")
 			finishBatches()
